@@ -25,6 +25,7 @@ from .. import sched_shapes as SS
 from .c01 import INVS, ACTIONS, FIXOBS, describe, key_for_trace, kill_env
 
 PID = "C02"
+PM_SHAPES = ["chain2", "restart", "obs", "fanin"]      # shapes whose tasks are restarted / fail next to running siblings
 FINAL = ("finished", "failed", "shutdown")
 
 
@@ -177,6 +178,36 @@ def run(tier):
             chk.trace_validated()
     chk.cov["real_runs_restarted_from_a_later_stage"] = len(rruns)
     runs = runs + rruns
+    # 2c. the environment acts INSIDE postMortemCheck (which holds no lock): killController() - i.e. finish(SHUTDOWN) on every
+    #     component - lands after the POSTMORTEM notification passed the finishCalled filter, either before the body of
+    #     postMortemCheck or while _restartComponent / Engine.restart is preparing the restart (pre-emption points of
+    #     harness/ctl.py, as in G02).  The runs are matched against the model that has the named deviation LatePostMortem, so a
+    #     final state that changes after it was set shows as FinalAbsorbing / NoRunAfterFinal false on the logged real states.
+    pm_cases = SC.all_cases(PM_SHAPES, None if thorough else 8, random.Random(chk.seed + 4))
+    pm_envs = [dict(pm_kill_p=0.4, pm_where="pm-entry"), dict(pm_kill_p=0.7, pm_where="in-restart")]
+    pruns = SC.run_real(pm_cases, 6 if thorough else 4, chk.scratch, chk.seed + 13, env_for=lambda ci, k: pm_envs[(k + ci) % 2])
+    pres, tl = SC.validate_traces("c02pm" + tier, PM_SHAPES, pruns, fixobs=FIXOBS, fix_restart_race=False,
+                                  invariants=SC.TRACE_INVS + ("ExactlyOneFinal",))
+    for t in tl:
+        chk.add_tlc(t)
+    inside = collections.Counter()
+    for h, res in zip(pruns, pres):
+        chk.evaluated((h.shape_name, tuple(h.oa), json.dumps(h.sched)))
+        rp = dict(kind="real", shape=h.shape_name, oa=h.oa, sched=h.sched)
+        for where, _ref, _i in h.preempted:
+            inside[where] += 1
+        what = "%s outcomes=%s schedule=%s (kill inside postMortemCheck: %s)" % (h.shape_name, h.oa, h.sched, h.preempted)
+        if h.stuck or not h.quiescent:
+            chk.violation("stuck:kill-inside-postMortemCheck:%s" % h.shape_name, "%s never reaches quiescence: %s" % (what, h.stuck), rp)
+        elif res is not None:
+            chk.violation(key_for_trace(h, res), "%s: %s at step %s: %s" % (what, res["kind"], res.get("step"),
+                                                                           json.dumps(describe(h, res.get("step")))[:1200]), rp)
+        else:
+            chk.trace_validated()
+    chk.cov["real_runs_with_kill_inside_postMortemCheck"] = dict(inside)
+    if not chk.violations and not (inside["pm-entry"] and inside["in-restart"]):
+        raise MachineryError("no run had the kill arrive inside postMortemCheck / Engine.restart: %s" % dict(inside))
+    runs = runs + pruns
     # the shape expansion and the graph the real code builds must have the same edges; a difference makes the real controller
     # schedule differently from the specification, which the trace validation above reports - if it did not, the shapes
     # (not the code) are suspect: machinery error
